@@ -130,8 +130,34 @@ def run_unit(unit, rng, ctx):
     nb_gem = models.grid_neighbours(shape, models.GEMDAT22 if diagonal else models.FACE_MOVES)
     what0 = f'grid {shape} ({src}) blocked={Fd.size - len(allowed)} diagonal={diagonal}'
     wit0 = {'F': Fd, 'diagonal': diagonal}
+    # both neighbourhood modes are requested from the SAME volume object, in random order, and an
+    # on-the-fly path (default graph) may come first: nothing may leak from one request into the other
+    first_other = bool(rng.integers(2))
+    nb6 = models.grid_neighbours(shape, models.FACE_MOVES)
+    nb26 = models.grid_neighbours(shape, models.ALL26)
+    if rng.integers(2):
+        try:
+            _ = F.optimal_path(start=sorted(allowed)[0], stop=sorted(allowed)[-1])
+        except Exception:  # noqa: BLE001
+            pass
+    if first_other:
+        G_other = F.free_energy_graph(max_energy_threshold=thr, diagonal=not diagonal)
     G = F.free_energy_graph(max_energy_threshold=thr, diagonal=diagonal)
+    if not first_other:
+        G_other = F.free_energy_graph(max_energy_threshold=thr, diagonal=not diagonal)
     ctx.check(set(G.nodes) == allowed, f'{what0}: graph nodes differ from the voxels below the threshold', wit0)
+    for Gx, dg in ((G, diagonal), (G_other, not diagonal)):
+        E = {frozenset((tuple(int(x) for x in u), tuple(int(x) for x in v))) for u, v in Gx.edges if tuple(u) != tuple(v)}
+        face = {frozenset((u, v)) for u in allowed for v in nb6[u] if v in allowed}
+        full = {frozenset((u, v)) for u in allowed for v in nb26[u] if v in allowed}
+        if dg:
+            ctx.check(face <= E <= full, f'{what0}: graph(diagonal=True) has {len(E - full)} edges between non-neighbouring voxels and lacks {len(face - E)} face edges', wit0)
+        else:
+            ctx.check(E == face, f'{what0}: graph(diagonal=False) has {len(E - face)} non-face edges (e.g. {sorted(map(sorted, E - face))[:1]}) and lacks {len(face - E)} face edges', wit0)
+        for u, v, dat in list(Gx.edges(data=True))[:: max(1, Gx.number_of_edges() // 12)]:
+            w = 0.5 * (Fd[tuple(u)] + Fd[tuple(v)])
+            we = min(math.exp(w) if w < 700 else float('inf'), thr)
+            ctx.check(abs(dat['weight'] - w) <= 1e-12 * max(1, abs(w)) and abs(dat['weight_exp'] - we) <= 1e-9 * max(1, abs(we)), f'{what0}: edge {u}-{v} has weight {dat["weight"]!r} / weight_exp {dat["weight_exp"]!r}, expected {w!r} / {we!r}', wit0)
     nodes = sorted(allowed)
     if len(nodes) <= 24:
         pairs = [(a, b) for a in nodes for b in nodes if a != b]
@@ -156,6 +182,7 @@ def run_unit(unit, rng, ctx):
         cost = edge_cost_fn(Fd, method, thr)
         try:
             if diagonal and rng.integers(2):
+                # on the fly: the volume builds its default (diagonal) graph itself
                 path = F.optimal_path(start=start, stop=stop, method=method)
             else:
                 path = F.optimal_path(F_graph=G, start=start, stop=stop, method=method)
